@@ -253,6 +253,14 @@ func TestC16(t *testing.T) {
 		// requests that are all answered OK leave a deleted topic that still has a message; the maintenance
 		// service that removes deleted topics comes round before the one that removes the message (its
 		// round fails on the foreign key, which is harmless); the server keeps answering afterwards
+		// pairs of fields that are each fine and unusual together
+		{Kind: "createSub", Sub: &SubReq{Name: "projects/p/subscriptions/pair1", Topic: T, HasRetry: true, RetryMin: p64(int64(10 * time.Second)), RetryMax: p64(int64(5 * time.Second))}},
+		{Kind: "createSub", Sub: &SubReq{Name: "projects/p/subscriptions/pair2", Topic: T, HasRetry: true, RetryMin: p64(int64(600 * time.Second)), RetryMax: p64(1)}},
+		{Kind: "createSub", Sub: &SubReq{Name: "projects/p/subscriptions/pair3", Topic: T, Expiration: p64(int64(time.Hour)), Retention: p64(int64(2 * time.Hour))}},
+		{Kind: "createSub", Sub: &SubReq{Name: "projects/p/subscriptions/pair4", Topic: T, DLTopic: pstr(T), DLMax: 1}},
+		{Kind: "updateSub", Has: true, Paths: []string{"retry_policy"}, Sub: &SubReq{Name: S2, Topic: T, HasRetry: true, RetryMin: p64(int64(600 * time.Second)), RetryMax: p64(int64(time.Second))}},
+		{Kind: "updateSub", Has: true, Paths: []string{"dead_letter_policy"}, Sub: &SubReq{Name: S2, Topic: T}},
+		{Kind: "updateSub", Has: true, Paths: []string{"expiration_policy", "message_retention_duration"}, Sub: &SubReq{Name: S2, Topic: T, Expiration: p64(int64(time.Minute)), Retention: p64(int64(time.Hour))}},
 		{Kind: "createTopic", Name: "projects/p/topics/gone"},
 		{Kind: "op", Op: &Op{K: "publish", Topic: "gone", Via: "handler", Msgs: []MsgSpec{{N: 902}}}},
 		{Kind: "deleteTopic", Name: "projects/p/topics/gone"},
